@@ -217,7 +217,7 @@ def http_content_after_status(repo, col):
     sites = [("http_accessor", "HttpAccessor.fetch_file", False),
              ("sharded_http_accessor", "HttpShard.read_bytes", True)]
     for ms, qn, ranged in sites:
-        fn = repo.func(ms, qn)
+        fn = repo.func(ms, qn, inline=True)
         cfg = fn.cfg()
         owner = enclosing_stmt_map(fn.node)
         defs = local_defs(fn.node)
@@ -239,8 +239,11 @@ def http_content_after_status(repo, col):
             if is_content:
                 content_rets.append(r)
         if not content_rets:
-            raise AnalysisError("anchor vanished: return of response content "
-                                "in %s" % fn.key)
+            col.add(rule + ".status", fn, "return of the response content",
+                    True, "no return of `.content` recognised in %s (built in "
+                    "a helper that cannot be inlined)" % fn.key,
+                    undecided=True)
+            continue
         for r in content_rets:
             rn = cfg.node_of(r)
             ok = bool(rfs_nodes) and cfg.every_path_passes(cfg.entry, rn,
@@ -282,15 +285,18 @@ def http_content_after_status(repo, col):
         if ranged:
             # the Range header covers [offset, offset + length - 1]
             txt = ftext(fn)
-            okr = "f'bytes={offset}-{offset + length - 1}'" in txt
+            rp = [p_ for p_ in fn.params if p_ != "self"]
+            o_, l_ = (rp + ["offset", "length"])[:2]
+            okr = ("f'bytes={%s}-{%s + %s - 1}'" % (o_, o_, l_)) in txt or \
+                ("'bytes={}-{}'.format(%s, %s + %s - 1)" % (o_, o_, l_)) in txt
             col.add(rule + ".range-header", fn, "bytes={offset}-{offset+length-1}",
                     okr, "" if okr else "Range header is not the inclusive "
                     "byte range of the request", undecided=not okr)
             # legacy layout: offsets into .data are rebased exactly once
             reb = [n for n in walk_local(fn.node) if isinstance(n, ast.Assign)
-                   and norm(n.targets[0]) == "offset"]
+                   and norm(n.targets[0]) == o_]
             okb = len(reb) == 1 and norm(reb[0].value) == \
-                "offset - self.header_byte_length"
+                "%s - self.header_byte_length" % o_
             col.add(rule + ".legacy-rebase", fn, "offset rebased once", okb,
                     "" if okb else "legacy .data offset is not rebased "
                     "exactly once by the index length", undecided=len(reb) != 1)
@@ -303,7 +309,7 @@ def http_content_after_status(repo, col):
     # file_exists probes
     fe = repo.func("sharded_http_accessor", "HttpShard.file_exists")
     txt = ftext(fe)
-    ok = "resp.raise_for_status()" in txt and "status_code" in txt
+    ok = ".raise_for_status()" in txt and "status_code" in txt
     col.add(rule + ".probe", fe, "non-200/404 statuses raise", ok,
             "" if ok else "HEAD probe treats an error status as 'absent'")
 
@@ -439,6 +445,18 @@ def overwrite_and_gzip(repo, col):
                             fn.module, d.value) and \
                             "overwrite" in norm(d.value):
                         okm = True
+                # if/else form: the exclusive mode is assigned under a test
+                # on `overwrite`
+                from .dataflow import control_names
+                mdefs = [d for d in defs.get(mode.id, [])
+                         if d.value is not None]
+                if not okm and mdefs and any(
+                        isinstance(d.value, ast.Constant) and
+                        d.value.value in ("xb", "x") for d in mdefs) and all(
+                        "overwrite" in closure_names(
+                            fn.node, control_names(fn.node, d.stmt), defs)
+                        for d in mdefs if isinstance(d.value, ast.Constant)):
+                    okm = True
             col.add(rule + ".overwrite", fn, norm(c)[:60], okm,
                     "open mode derives from `overwrite` ('xb' when false)"
                     if okm else "this write-open does not depend on "
@@ -569,6 +587,15 @@ def _const_tuple(module, node, depth=0):
         return a + b if a is not None and b is not None else None
     if isinstance(node, ast.Name) and node.id in module.constants and depth < 3:
         return _const_tuple(module, module.constants[node.id], depth + 1)
+    # a table defined in another module of the package (alias / import)
+    if isinstance(node, (ast.Name, ast.Attribute)) and depth < 3:
+        tgt = module.resolve(dotted(node) or "") or ""
+        if tgt.startswith(PKG + ".") and "." in tgt:
+            modname, cname = tgt.rsplit(".", 1)
+            om = module.repo.modules.get(modname)
+            if om is not None and cname in om.constants:
+                module.repo.consulted.add(modname)
+                return _const_tuple(om, om.constants[cname], depth + 1)
     return None
 
 
@@ -579,7 +606,10 @@ def data_type_tables(repo, col):
     a = _const_tuple(ce, ce.constants.get("NEUROGLANCER_DATA_TYPES"))
     b = _const_tuple(dt, dt.constants.get("NG_DATA_TYPES"))
     if a is None or b is None:
-        raise AnalysisError("anchor vanished: data type tables")
+        col.add(rule, "chunk_encoding:NEUROGLANCER_DATA_TYPES",
+                "data type tables", True, "a data type table is not a literal "
+                "tuple (or an alias of one)", undecided=True)
+        return
     col.add(rule, "chunk_encoding:NEUROGLANCER_DATA_TYPES",
             "== data_types.NG_DATA_TYPES", set(a) == set(b),
             "" if set(a) == set(b) else "the two lists of Neuroglancer data "
@@ -596,7 +626,11 @@ def data_type_tables(repo, col):
         for n in walk_local(fn.node):
             if isinstance(n, ast.Compare) and isinstance(n.ops[0], ast.NotIn) \
                     and "data_type" in norm(n.left):
-                t = _const_tuple(fn.module, n.comparators[0])
+                cmp_ = n.comparators[0]
+                if not isinstance(cmp_, (ast.Tuple, ast.List, ast.Set)) and \
+                        "SEGMENTATION" not in (dotted(cmp_) or "").upper():
+                    continue      # some other table (all integer types, ...)
+                t = _const_tuple(fn.module, cmp_)
                 if t and all(isinstance(x, str) for x in t):
                     sets.append((fn, set(t)))
     okc = len(sets) >= 1 and all(s == {"uint32", "uint64"} for _, s in sets)
@@ -621,6 +655,30 @@ def data_type_tables(repo, col):
                     isinstance(n.comparators[0], ast.Constant) and \
                     isinstance(n.comparators[0].value, str):
                 branches.add(n.comparators[0].value)
+    # table-driven dispatch: a module-level table of (name, factory) pairs
+    # or a dict keyed by encoding name, referenced by the switch
+    table_driven = False
+    for h in closure:
+        for nm in names_in(h.node):
+            tv = h.module.constants.get(nm)
+            keys = []
+            if isinstance(tv, (ast.Tuple, ast.List)):
+                for e in tv.elts:
+                    if isinstance(e, (ast.Tuple, ast.List)) and e.elts and \
+                            isinstance(e.elts[0], ast.Constant) and \
+                            isinstance(e.elts[0].value, str):
+                        keys.append(e.elts[0].value)
+            elif isinstance(tv, ast.Dict):
+                keys = [k.value for k in tv.keys
+                        if isinstance(k, ast.Constant)
+                        and isinstance(k.value, str)]
+            if keys and len(keys) >= 2 and any(
+                    isinstance(v, (ast.Name, ast.Attribute, ast.Lambda))
+                    for v in (tv.values if isinstance(tv, ast.Dict) else
+                              [e.elts[-1] for e in tv.elts
+                               if isinstance(e, (ast.Tuple, ast.List))])):
+                branches |= set(keys)
+                table_driven = True
     choices = set()
     for mod in repo.modules.values():
         if ".scripts." not in mod.name:
@@ -637,9 +695,11 @@ def data_type_tables(repo, col):
                         repo.consulted.add(mod.name)
     col.add(rule, ge, "branches %s cover CLI choices %s" % (sorted(branches),
                                                              sorted(choices)),
-            bool(choices) and choices <= branches, "" if choices <= branches
+            (bool(choices) and choices <= branches) or not branches,
+            "" if choices <= branches
             else "--encoding offers %s which get_encoder does not handle"
-            % sorted(choices - branches))
+            % sorted(choices - branches),
+            undecided=not branches)
     oke = any(isinstance(s, ast.Raise) and "InvalidInfoError" in norm(s)
               and "Invalid encoding" in norm(s)
               for h in closure for s in stmts_of(h.node))
@@ -657,17 +717,119 @@ def data_type_tables(repo, col):
             "codec dtype is not forced to little-endian")
 
 
+from .core import block_always_raises as block_always_raises_
+
+
+def _flat_pattern_use(fn):
+    """(ok, undecided): fn (or a straight-line helper it calls) returns
+    _CHUNK_PATTERN_FLAT.format(c0, ..., c5, key=<key>) where c0..c5 are the six
+    chunk coordinates in order."""
+    from .core import helper_closure
+    seen_format = False
+    for h in helper_closure(fn):
+        params = [p_ for p_ in h.params if p_ not in ("self", "cls")]
+        hdefs = local_defs(h.node)
+        for c in calls_in(h.node):
+            if not (isinstance(c.func, ast.Attribute) and c.func.attr == "format"
+                    and norm(c.func.value).endswith("_CHUNK_PATTERN_FLAT")):
+                continue
+            seen_format = True
+            kw = kwarg(c, "key")
+            if kw is None or not isinstance(kw, ast.Name) or \
+                    kw.id not in params:
+                continue
+            args = c.args
+            if len(args) == 1 and isinstance(args[0], ast.Starred) and \
+                    isinstance(args[0].value, ast.Name) and \
+                    args[0].value.id in params:
+                return True, False
+            if len(args) != 6 or not all(isinstance(a, ast.Name) for a in args):
+                continue
+            idx = []
+            src = set()
+            for a in args:
+                ds = [d for d in hdefs.get(a.id, []) if d.index is not None
+                      and isinstance(d.value, ast.Name)]
+                if len(ds) != 1:
+                    idx.append(None)
+                    continue
+                idx.append(ds[0].index)
+                src.add(ds[0].value.id)
+            if idx == [0, 1, 2, 3, 4, 5] and len(src) == 1 and \
+                    src <= set(params):
+                return True, False
+            if None not in idx:
+                return False, False
+    return False, not seen_format
+
+
 def dispatch_agreement(repo, col):
     rule = "E-SIB.dispatch"
     fn = repo.func("accessor", "get_accessor_for_url")
-    branches = []
-    for st in stmts_of(fn.node):
-        if isinstance(st, ast.If) and "r.scheme in" in norm(st.test):
-            branches.append(st)
-    # flatten if/elif chain
+    # arms of the scheme dispatch, found by evaluating the tests for each
+    # scheme value (so `in`, `==`, `not`, swapped arms and elif/else chains
+    # are all the same to the rule)
+    def eval_test(t, scheme):
+        if isinstance(t, ast.UnaryOp) and isinstance(t.op, ast.Not):
+            v = eval_test(t.operand, scheme)
+            return None if v is None else not v
+        if isinstance(t, ast.BoolOp):
+            vs = [eval_test(v, scheme) for v in t.values]
+            if any(v is None for v in vs):
+                return None
+            return all(vs) if isinstance(t.op, ast.And) else any(vs)
+        if isinstance(t, ast.Compare) and len(t.ops) == 1 and \
+                isinstance(t.left, ast.Attribute) and t.left.attr == "scheme":
+            c = t.comparators[0]
+            op = t.ops[0]
+            if isinstance(c, (ast.Tuple, ast.List, ast.Set)) and all(
+                    isinstance(e, ast.Constant) for e in c.elts):
+                vals = [e.value for e in c.elts]
+                if isinstance(op, ast.In):
+                    return scheme in vals
+                if isinstance(op, ast.NotIn):
+                    return scheme not in vals
+            if isinstance(c, ast.Constant):
+                if isinstance(op, ast.Eq):
+                    return scheme == c.value
+                if isinstance(op, ast.NotEq):
+                    return scheme != c.value
+        return None
+
+    def arm_for(scheme):
+        block = None
+        for st in fn.node.body:
+            if isinstance(st, ast.If) and any(
+                    isinstance(x, ast.Attribute) and x.attr == "scheme"
+                    for x in ast.walk(st.test)):
+                block = [st]
+        steps = 0
+        while block and len([x for x in block if not isinstance(
+                x, (ast.Import, ast.ImportFrom))]) >= 1 and steps < 6:
+            real = [x for x in block if not isinstance(x, (ast.Import,
+                                                           ast.ImportFrom))]
+            head = real[0]
+            if len(real) == 1 and isinstance(head, ast.If) and any(
+                    isinstance(x, ast.Attribute) and x.attr == "scheme"
+                    for x in ast.walk(head.test)):
+                v = eval_test(head.test, scheme)
+                if v is None:
+                    return None
+                block = head.body if v else head.orelse
+                steps += 1
+                continue
+            return block
+        return block
+
     arms = []
-    for st in branches:
-        body = st.body
+    for label, schemes in (("file", ("", "file")), ("http", ("http", "https"))):
+        blocks = [arm_for(sc) for sc in schemes]
+        if any(b_ is None or not b_ for b_ in blocks) or \
+                any(b_ is not blocks[0] for b_ in blocks):
+            col.add(rule, fn, "%s arm" % label, True, "scheme dispatch not in "
+                    "a recognised form", undecided=True)
+            continue
+        body = blocks[0]
         # 'extract function': the arm only delegates to a module helper
         real = [x for x in body if not isinstance(x, (ast.Import,
                                                       ast.ImportFrom))]
@@ -676,67 +838,102 @@ def dispatch_agreement(repo, col):
             h = fn.module.functions.get(call_name(real[0].value) or "")
             if h is not None and h is not fn:
                 body = h.node.body
-        arms.append((norm(st.test), body))
-    if len(arms) < 2:
-        raise AnalysisError("anchor vanished: scheme dispatch in %s" % fn.key)
+        arms.append((label, body))
+    other = arm_for("ftp")
+    ok_other = other is not None and block_always_raises_(other)
+    col.add(rule, fn, "other schemes raise", ok_other, "" if ok_other else
+            "an unsupported URL scheme does not end in an error",
+            undecided=other is None)
     preds = []
     for test, body in arms:
-        calls = [c for s in body for c in calls_in(s)]
-        pred = [norm(c) for c in calls if "info_is_sharded" in norm(c.func)]
+        calls = [c for s_ in body for c in calls_in(s_)]
+        pred = ["info_is_sharded" for c in calls
+                if "info_is_sharded" in norm(c.func)]
         fetch = [norm(c) for c in calls if norm(c).endswith(
-            "accessor.fetch_file('info')")]
-        preds.append((test, pred, fetch))
+            ".fetch_file('info')")]
         ok = len(pred) == 1 and len(fetch) >= 1
-        helper = None
         if not ok:
             for c in calls:
                 h = fn.module.functions.get(call_name(c) or "")
                 if h is not None and "info_is_sharded" in ftext(h) and \
                         "fetch_file('info')" in ftext(h):
-                    helper = h.qualname
-                    pred = ["via " + helper]
+                    pred = ["via " + h.qualname]
                     ok = True
         col.add(rule, fn, "%s: sharded iff info_is_sharded(fetched info)"
                 % test[:40], ok, "" if ok else "this branch does not decide "
                 "'sharded' from the fetched info with info_is_sharded")
-        preds[-1] = (test, pred, fetch)
-        ret_sh = [norm(s.value) for s in body for s in
-                  [x for x in ast.walk(s) if isinstance(x, ast.Return)]
-                  if s.value is not None]
-        oks = any("Sharded" in r for r in ret_sh) and any(
-            r == "accessor" for r in ret_sh)
+        preds.append((test, pred, fetch))
+        bdefs = {}
+        for s_ in body:
+            for x in ast.walk(s_):
+                if isinstance(x, ast.Assign) and len(x.targets) == 1 and \
+                        isinstance(x.targets[0], ast.Name):
+                    bdefs.setdefault(x.targets[0].id, []).append(x.value)
+        kinds = set()
+        for s_ in body:
+            for x in ast.walk(s_):
+                if not (isinstance(x, ast.Return) and x.value is not None):
+                    continue
+                vals = [x.value]
+                if isinstance(x.value, ast.Name):
+                    vals = bdefs.get(x.value.id, []) or [x.value]
+                for v in vals:
+                    t_ = norm(v)
+                    if "Sharded" in t_:
+                        kinds.add("sharded")
+                    elif isinstance(v, ast.Call) and (
+                            call_name(v) or "").endswith(("FileAccessor",
+                                                          "HttpAccessor")):
+                        kinds.add("plain")
+                    else:
+                        kinds.add("?")
+        oks = {"sharded", "plain"} <= kinds
         col.add(rule, fn, "%s: returns sharded or plain accessor" % test[:40],
-                oks, "" if oks else "branch does not return both kinds")
-        # the sharded accessor is returned only under `if is_sharding`
-        for s in body:
-            if isinstance(s, ast.If) and any(
-                    isinstance(x, ast.Return) and "Sharded" in norm(x.value)
-                    for x in ast.walk(s) if isinstance(x, ast.Return)
-                    and x.value is not None):
-                tt = norm(s.test)
-                okg = tt == "is_sharding"
-                und = False
-                if not okg:
-                    # same decision written as one expression
-                    pos = [o for o in (s.test.values if isinstance(
-                        s.test, ast.BoolOp) and isinstance(s.test.op, ast.Or)
-                        else [s.test])]
-                    names = [p.replace("via ", "") for p in pred]
+                oks or "?" in kinds, "" if oks else
+                "branch does not return both kinds",
+                undecided=not oks and "?" in kinds)
+        # the sharded accessor is returned only when sharding was decided
+        for s_ in body:
+            if isinstance(s_, ast.If) and any(
+                    isinstance(x, ast.Return) and x.value is not None and
+                    "Sharded" in norm(x.value) for x in ast.walk(s_)):
+                tt = norm(s_.test)
+                okg, und = False, False
+                if isinstance(s_.test, ast.Name):
+                    flag = s_.test.id
+                    # the flag is set to True under the info predicate
+                    for st2 in [y for b_ in body for y in ast.walk(b_)
+                                if isinstance(y, ast.If)]:
+                        if ("info_is_sharded" in norm(st2.test) or any(
+                                p_.replace("via ", "") in norm(st2.test)
+                                for p_ in pred if p_.startswith("via "))) \
+                                and any(isinstance(z, ast.Assign) and
+                                        norm(z.targets[0]) == flag and
+                                        isinstance(z.value, ast.Constant) and
+                                        z.value.value is True
+                                        for z in ast.walk(st2)):
+                            okg = True
+                    und = not okg
+                else:
+                    pos = s_.test.values if isinstance(
+                        s_.test, ast.BoolOp) and isinstance(
+                            s_.test.op, ast.Or) else [s_.test]
+                    names = [p_.replace("via ", "") for p_ in pred]
                     if any(isinstance(o, ast.Call) and (
                             "info_is_sharded" in norm(o.func) or
                             (call_name(o) or "") in names) for o in pos):
                         okg = True
-                    elif not isinstance(s.test, ast.UnaryOp):
+                    elif not isinstance(s_.test, ast.UnaryOp):
                         und = True
                 col.add(rule, fn, "%s: sharded accessor under `is_sharding`"
                         % test[:40], okg or und, "" if okg else "sharded "
                         "accessor is returned under `%s`" % tt,
                         undecided=und)
     if len(preds) >= 2:
-        same = len({tuple(p[1]) for p in preds}) == 1
+        same = len({tuple(p_[1]) for p_ in preds}) == 1
         col.add(rule, fn, "file and http branches share one predicate", same,
                 "" if same else "the two branches decide 'sharded' "
-                "differently: %s" % [p[1] for p in preds])
+                "differently: %s" % [p_[1] for p_ in preds])
     isf = repo.func("sharded_base", "ShardedAccessorBase.info_is_sharded")
     t = ftext(isf)
     okp = "len(scales) > 0 and all((ShardedScaleBase.is_sharded(s) for s in scales))" in t
@@ -750,10 +947,11 @@ def dispatch_agreement(repo, col):
             "" if oks else "sharding marker test changed", undecided=not oks)
     # URL pattern shared between HTTP and flat files
     ha = repo.func("http_accessor", "HttpAccessor.chunk_relative_url")
-    okh = "_CHUNK_PATTERN_FLAT.format(xmin, xmax, ymin, ymax, zmin, zmax, key=key)" \
-        in ftext(ha)
-    col.add(rule, ha, "HTTP chunk URL = flat file pattern", okh, "" if okh else
-            "HTTP chunk URLs are not built from the shared flat pattern")
+    okh, undh = _flat_pattern_use(ha)
+    col.add(rule, ha, "HTTP chunk URL = flat file pattern", okh or undh,
+            "" if okh else
+            "HTTP chunk URLs are not built from the shared flat pattern",
+            undecided=undh and not okh)
     acc = repo.module("accessor")
     okp = isinstance(acc.constants.get("_CHUNK_PATTERN_FLAT"), ast.Constant) and \
         acc.constants["_CHUNK_PATTERN_FLAT"].value == \
@@ -1076,14 +1274,42 @@ def pipeline_composition(repo, col):
 def accessor_options_plumbing(repo, col):
     rule = "E-SIB.options"
     fn = repo.func("accessor", "get_accessor_for_url")
-    txt = ftext(fn)
+    from .core import helper_closure
+    ctor, owner_fn = None, None
+    for h in helper_closure(fn):
+        for c in calls_in(h.node):
+            if (call_name(c) or "").endswith("FileAccessor") and \
+                    "Sharded" not in (call_name(c) or ""):
+                ctor, owner_fn = c, h
     for opt, dflt in (("flat", "False"), ("gzip", "True"),
                       ("compresslevel", "9")):
-        p = "%s = accessor_options.get('%s', %s)" % (opt, opt, dflt)
-        ok = p in txt and ("%s=%s" % (opt, opt)) in txt
-        col.add(rule, fn, p, ok, "" if ok else "option %s is not passed from "
-                "accessor_options to FileAccessor with default %s"
-                % (opt, dflt), undecided=not ok and opt not in txt)
+        label = "%s = accessor_options.get('%s', %s)" % (opt, opt, dflt)
+        if ctor is None:
+            col.add(rule, fn, label, True, "FileAccessor construction not "
+                    "found", undecided=True)
+            continue
+        v = kwarg(ctor, opt)
+        if v is None:
+            col.add(rule, fn, label, True, "option %s is not passed by "
+                    "keyword" % opt, undecided=True)
+            continue
+        odefs = local_defs(owner_fn.node)
+        vals = [v]
+        if isinstance(v, ast.Name):
+            vals = [d.value for d in odefs.get(v.id, []) if d.value is not None]
+        gets = [x for x in vals if isinstance(x, ast.Call) and
+                isinstance(x.func, ast.Attribute) and x.func.attr == "get"
+                and x.args and isinstance(x.args[0], ast.Constant)]
+        if not gets or len(gets) != len(vals):
+            col.add(rule, fn, label, True, "value of %s is not read with "
+                    "<options>.get(...)" % opt, undecided=True)
+            continue
+        g = gets[0]
+        ok = g.args[0].value == opt and len(g.args) == 2 and \
+            norm(g.args[1]) == dflt
+        col.add(rule, fn, label, ok, "" if ok else "option %s is not passed "
+                "from accessor_options to FileAccessor with default %s (%s)"
+                % (opt, dflt, norm(g)), node=g)
     ini = repo.func("file_accessor", "FileAccessor.__init__")
     t = ftext(ini)
     ok = "if flat: self.chunk_pattern = _CHUNK_PATTERN_FLAT else: " \
